@@ -250,7 +250,29 @@ fn run_strings(id: String, seed: u64, kind: &'static str, n: usize, out: &mut Ca
                 let sql = if i % 3 == 0 {
                     let (gq, _) = c04_like(&mut rng, &gt.table);
                     q = gq;
-                    q.sql()
+                    let mut s = q.sql();
+                    // computed aggregates and ORDER BY on an aggregate run a final pass; combine them with LIMIT/OFFSET
+                    if rng.chance(0.3) {
+                        s = s.replacen(" FROM ", &format!(", SUM({}) / COUNT(1) AS ratio FROM ", quote_style("i_u8", &mut rng)), 1);
+                    }
+                    if rng.chance(0.3) {
+                        s = s.replacen(" FROM ", &format!(", AVG({}) FROM ", quote_style("i_u16", &mut rng)), 1);
+                    }
+                    if rng.chance(0.5) {
+                        s.push_str(&format!(" ORDER BY COUNT(1){}", if rng.chance(0.5) { " DESC" } else { "" }));
+                        if !s.contains("COUNT(1)") || !s[..s.find(" FROM ").unwrap_or(0)].contains("COUNT(1)") {
+                            s = s.replacen(" FROM ", ", COUNT(1) FROM ", 1);
+                        }
+                    }
+                    if rng.chance(0.7) {
+                        let l = *rng.pick(&[1u64, 2, 3, 5, 1000]);
+                        limit = Some(l);
+                        s.push_str(&format!(" LIMIT {}", l));
+                        if rng.chance(0.7) {
+                            s.push_str(&format!(" OFFSET {}", rng.pick(&[0u64, 1, 2, 3])));
+                        }
+                    }
+                    s
                 } else {
                     let nsel = 1 + rng.below(4);
                     let mut items = Vec::new();
